@@ -79,3 +79,12 @@ P("C20", "mirfacts+rules",
   "bookkeeping, queueing at degree 0 and Ok only under the length test.  The behavioural statement over all graphs is NOT claimed (it needs "
   "proof or enumeration); by the DFS finishing-time lemma these conditions are what the code's correctness argument rests on.",
   "the lemma-level argument is stated, not mechanised")
+
+P("C15", "mirfacts+srcfacts+rules",
+  "static analysis: exhaustive enumeration of panic-capable MIR sites (PANIC) with symbolic linear-form index provenance (G3), dominating length/prefix/suffix guards (G1/G2), constructor facts (G4), bounded offset arithmetic (G5), a reviewed exemption table, and error-flow isolation of syn::parse_file",
+  "For every body reachable from the entry points, each assert terminator, unwrap/expect, Index impl, partial String/Vec method, RefCell "
+  "borrow and external partial function (serde_rename_rule) is enumerated and must be discharged by a guard rule or one of the named, "
+  "side-condition-checked exemptions; string slice bounds are evaluated symbolically as offsets of find/rfind/char_indices results plus the "
+  "matched pattern's byte length, so a bound inside a multi-byte character or beyond the match is reported with its derivation.  "
+  "Exhaustive over reachable sites (≈150); panics inside third-party crates and resource exhaustion are not claimed.",
+  "std's documented guarantees for find/rfind/char_indices offsets; string lengths < isize::MAX; type strings < 2^31 bytes", b=True)
